@@ -246,7 +246,7 @@ pub fn sites(tier: Tier) -> Vec<Site> {
         let per = (chunks.len() * masks.len()) as u64;
         let n = small.len() as u64 * per;
         sites.push(Site::new("short-reads", n,
-            "every generated file and the shipped PTH file through a reader that returns at most k bytes per read, k in {1,2,3,5,7,13,4095}, x 4 cut patterns over the first 64 bytes: result identical to a plain read",
+            "every generated file and the shipped PTH file through a reader that returns at most k bytes per read, k in {1,2,3,5,7,13,4095}, x 4 cut patterns over the first 64 bytes (one of them with every third call interrupted): result identical to a plain read, and written back identically through a writer that accepts at most k bytes per call",
             move |i, acc| {
                 mark(4, i);
                 acc.eval();
@@ -260,7 +260,26 @@ pub fn sites(tier: Tier) -> Vec<Site> {
                 };
                 let chopped = guard(|| {
                     let mut c = crate::choppy::Choppy::new(f.bytes.clone(), m, k);
-                    if f.smx { Smx::read(&mut c).map(|v| format!("{v:?}")).map_err(|_| "rejected".to_string()) } else { Pth::read(&mut c).map(|v| format!("{v:?}")).map_err(|_| "rejected".to_string()) }
+                    // every third read call is interrupted first when the cut pattern is the alternating one
+                    c.interrupt_every = if m == 0x5555_5555_5555_5555 { 3 } else { 0 };
+                    let mut w = crate::choppy::ChoppyWriter::new(k, c.interrupt_every);
+                    if f.smx {
+                        let v = Smx::read(&mut c).map_err(|_| "rejected".to_string())?;
+                        let mut plain_w = Cursor::new(Vec::new());
+                        let (a, b) = (v.write(&mut w), v.write(&mut plain_w));
+                        if a.is_err() != b.is_err() || w.data != plain_w.into_inner() {
+                            return Ok(format!("written differently through a writer taking {k} byte(s) per call ({a:?})"));
+                        }
+                        Ok(format!("{v:?}"))
+                    } else {
+                        let v = Pth::read(&mut c).map_err(|_| "rejected".to_string())?;
+                        let mut plain_w = Cursor::new(Vec::new());
+                        let (a, b) = (v.write(&mut w), v.write(&mut plain_w));
+                        if a.is_err() != b.is_err() || w.data != plain_w.into_inner() {
+                            return Ok(format!("written differently through a writer taking {k} byte(s) per call ({a:?})"));
+                        }
+                        Ok(format!("{v:?}"))
+                    }
                 });
                 let replay = json!({"site": "short-reads", "index": i, "file": f.name, "chunk": k, "cuts": format!("{m:#x}")});
                 match chopped {
